@@ -296,6 +296,11 @@ impl<'tcx> Cx<'tcx> {
     fn body(&self, did: DefId) -> String {
         let tcx = self.tcx;
         let body = tcx.optimized_mir(did);
+        self.body_of(did, body, tcx.def_path_str(did))
+    }
+
+    fn body_of(&self, did: DefId, body: &Body<'tcx>, path: String) -> String {
+        let tcx = self.tcx;
         let mut locals: Vec<String> = Vec::new();
         for (l, d) in body.local_decls.iter_enumerated() {
             locals.push(jobj(&[
@@ -397,7 +402,7 @@ impl<'tcx> Cx<'tcx> {
             "null".to_string()
         };
         jobj(&[
-            ("path", js(&tcx.def_path_str(did))),
+            ("path", js(&path)),
             ("kind", js(&format!("{:?}", tcx.def_kind(did)))),
             ("parent", parent),
             ("argc", format!("{}", body.arg_count)),
@@ -450,6 +455,11 @@ impl Callbacks for Cb {
                 continue;
             }
             bodies.push(cx.body(did));
+            // promoted constants (`&CONST_EXPR` temporaries) as tiny bodies of their own
+            for (pi, pb) in tcx.promoted_mir(did).iter_enumerated() {
+                let pp = format!("{}::promoted[{}]", tcx.def_path_str(did), pi.as_usize());
+                bodies.push(cx.body_of(did, pb, pp));
+            }
         }
         // ADTs
         let mut adts: Vec<String> = Vec::new();
